@@ -9,6 +9,13 @@ structure DState where
   s : SHeap := ⟨fun x => x⟩
   hh : HHeap := ⟨fun _ => none, fun _ => none, fun _ => none⟩
   nheads : Nat := 0
+  /-- observable (round 3 correction): nodes that were removed with the plain `dlist_del` and not
+  re-initialised / re-inserted since — the property says of them only that no list reaches them, so
+  their own link fields (the poison values) are NOT part of the compared dump -/
+  removed : List Nat := []
+  /-- slist nodes that are in no list (popped, orphaned by re-initialising their head): their stale
+  `next` is not compared -/
+  sfree : List Nat := []
 
 def FUEL : Nat := 100000
 
@@ -47,16 +54,24 @@ def tTok (st : DState) (v : Nat) : String :=
 def dump (st : DState) : String :=
   match st.kind with
   | "c" => if st.n > 16 then "" else
-      " ".intercalate ((List.range st.n).map fun i => s!"{i}:{showPtr (st.h.next i)}/{showPtr (st.h.prev i)}")
+      " ".intercalate ((List.range st.n).map fun i =>
+        if st.removed.contains i then s!"{i}:-/-" else s!"{i}:{showPtr (st.h.next i)}/{showPtr (st.h.prev i)}")
   | "t" => " ".intercalate (((List.range (st.n - st.nheads)).map fun i =>
-        s!"{i}:a={tTok st (st.h.next (tNode i 0))}/{tTok st (st.h.prev (tNode i 0))},b={tTok st (st.h.next (tNode i 1))}/{tTok st (st.h.prev (tNode i 1))}")
+        let f := fun (m : Nat) => if st.removed.contains (tNode i m) then "-/-"
+                  else s!"{tTok st (st.h.next (tNode i m))}/{tTok st (st.h.prev (tNode i m))}"
+        s!"{i}:a={f 0},b={f 1}")
       ++ ((List.range st.nheads).map fun j =>
         s!"{st.n - st.nheads + j}:{tTok st (st.h.next (tHead j))}/{tTok st (st.h.prev (tHead j))}"))
   | "x" => " ".intercalate ((List.range st.n).map fun i =>
       if st.alive.contains i then s!"{i}:{showPtr (st.h.next i)}/{showPtr (st.h.prev i)}" else s!"{i}:dead")
-  | "s" => " ".intercalate ((List.range st.n).map fun i => s!"{i}:{st.s.next i}")
-  | "h" => " ".intercalate ((List.range st.n).map fun i =>
-      if i < st.n - st.nheads then s!"{i}:{showOpt (st.hh.next i)}/{showLoc (st.hh.pprev i)}"
+  | "s" => " ".intercalate ((List.range st.n).map fun i =>
+      if st.sfree.contains i then s!"{i}:-" else s!"{i}:{st.s.next i}")
+  | "h" =>
+      -- a node that is in no chain (deleted, orphaned, never added): neither `next` nor `pprev` is compared
+      let linked := ((List.range st.nheads).map fun j => hlistToList st.hh (st.n + 1) (st.n - st.nheads + j)).flatten
+      " ".intercalate ((List.range st.n).map fun i =>
+      if i < st.n - st.nheads then
+        (if linked.contains i then s!"{i}:{showOpt (st.hh.next i)}/{showLoc (st.hh.pprev i)}" else s!"{i}:-/-")
       else s!"{i}:{showOpt (st.hh.first i)}")
   | _ => "?"
 
@@ -91,13 +106,13 @@ def step3 (st : DState) (op a b : String) : DState × String :=
     match nat? a, nat? b with
     | some a, some b =>
       match op with
-      | "cadd_next" => res { st with h := dlistAddNext st.h a b } "ok"
-      | "cadd_prev" => res { st with h := dlistAddPrev st.h a b } "ok"
+      | "cadd_next" => res { st with h := dlistAddNext st.h a b, removed := st.removed.erase a } "ok"
+      | "cadd_prev" => res { st with h := dlistAddPrev st.h a b, removed := st.removed.erase a } "ok"
       | "cmove" => res { st with h := dlistMove st.h a b } "ok"
       | "cmove_tail" => res { st with h := dlistMoveTail st.h a b } "ok"
-      | "cinsert_instead" => res { st with h := dlistInsertInstead st.h a b } "ok"
-      | "cmove_sorted" => res { st with h := dlistMoveSorted st.h (fun x y => decide (x < y)) FUEL a b } "ok"
-      | "cin" => res st (if dlistIn st.h FUEL a b then "1" else "0")
+      | "cinsert_instead" => res { st with h := dlistInsertInstead st.h a b, removed := st.removed.erase a } "ok"
+      | "cmove_sorted" => res { st with h := dlistMoveSorted st.h (fun x y => decide (x < y)) FUEL a b, removed := st.removed.erase a } "ok"
+      | "cin" => res st (if dlistInL st.h (max FUEL (st.n + 2)) a b then "1" else "0")
       | "ccheck" => res st (toString (dlistCheck st.h a b))
       | "ccheck_rev" => res st (toString (dlistCheckReversed st.h a b))
       | "xmove_next" => res { st with h := nodeMoveNextThan st.h a b } "ok"
@@ -105,12 +120,12 @@ def step3 (st : DState) (op a b : String) : DState × String :=
       | "xmove_front" => res { st with h := nodeMoveNextThan st.h b a } "ok"   -- list a, node b
       | "xmove_back" => res { st with h := nodeMovePrevThan st.h b a } "ok"
       | "xsplice" => res { st with h := listSplice st.h a b } "ok"
-      | "sadd" => res { st with s := slistAdd st.s a b } "ok"
+      | "sadd" => res { st with s := slistAdd st.s a b, sfree := st.sfree.erase a } "ok"
       | "spop_entry" =>   -- list a, idiom b (0: mcast_out_or_null(slist_pop_first(..)), 1: slist_pop_first_entry)
         let r := slistPopFirst st.s a
-        res { st with s := r.1 } (keyOfEntry (mcastOutOrNull (ptrOf (r.2.map HADDR)) XOFF))
-      | "sxadd" => res { st with s := slistAdd st.s a b } "ok"
-      | "smove_front" => res { st with s := slistMoveFront st.s FUEL a b } "ok"
+        res { st with s := r.1, sfree := r.2.toList ++ st.sfree } (keyOfEntry (mcastOutOrNull (ptrOf (r.2.map HADDR)) XOFF))
+      | "sxadd" => res { st with s := slistAdd st.s a b, sfree := st.sfree.erase a } "ok"
+      | "smove_front" => res { st with s := slistMoveFront st.s FUEL a b, sfree := st.sfree.erase a } "ok"
       | "sin" => res st (if slistIn st.s FUEL a b then "1" else "0")
       | "cpoke_next" => res { st with h := st.h.setNext a b } "ok"
       | "cpoke_prev" => res { st with h := st.h.setPrev a b } "ok"
@@ -119,6 +134,83 @@ def step3 (st : DState) (op a b : String) : DState × String :=
       | "xmove_back_t" => res { st with h := listMovePrev st.h (xObj b) XOFF a } "ok"
       | _ => bad
     | _, _ => bad
+
+/-! ### round 3: kind-independent ops (widths, macro exercise, pre-main history) -/
+def hexNat (v : Nat) : String := String.ofList (Nat.toDigits 16 v)
+def widthsStr : String :=
+  let i := INT_BITS / 8
+  let z := SIZE_T_BITS / 8
+  s!"int={i},{i},{i},{i} size_t={z},{z} ptr={PTR_BYTES} structs={DLIST_HEAD_BYTES},{SLIST_HEAD_BYTES},{HLIST_NODE_BYTES},{HLIST_HEAD_BYTES},{DLIST_HEAD_BYTES},{DLIST_HEAD_BYTES}" ++
+  s!" c={i} {i} {DLIST_HEAD_BYTES} {SLIST_HEAD_BYTES} {HLIST_NODE_BYTES} {HLIST_HEAD_BYTES} bound={IS_CORRECT_BOUND}" ++
+  s!" off={XOFF.toNat},{(memberOffsetof XOFF).toNat},{(memberOffsetof 80#64).toNat} msize={DLIST_HEAD_BYTES},{SLIST_HEAD_BYTES},{HLIST_NODE_BYTES},{24 + DLIST_HEAD_BYTES + INT_BYTES + 12 + DLIST_HEAD_BYTES + SLIST_HEAD_BYTES + HLIST_NODE_BYTES}"
+
+/-- the fixture of the macro exercise: object k at `MB + 96 k`, members la/lb/sl/hl at 24/56/72/80 -/
+def MB : Nat := 65536
+def mObj (k : Nat) : Nat := MB + 96 * k
+def MHA : Nat := 131072
+def MHB : Nat := 131088
+def MHS : Nat := 131104
+def MHH : Nat := 131120
+def mFixD : Heap :=
+  (List.range 4).foldl (fun h k => dlistAddNext (dlistAddPrev h (mObj k + 24) MHA) (mObj k + 56) MHB)
+    (dlistInit (dlistInit ⟨fun x => x, fun x => x⟩ MHA) MHB)
+def mFixS : SHeap := (List.range 4).foldl (fun s k => slistAdd s (mObj k + 72) MHS) (slistInit ⟨fun x => x⟩ MHS)
+def mFixH : HHeap :=
+  ((List.range 4).foldl (fun (p : HHeap × Loc) k => (hlistAddNext p.1 (mObj k + 80) p.2, Loc.nodeNext (mObj k + 80)))
+    (hlistHeadInit ⟨fun _ => none, fun _ => none, fun _ => none⟩ MHH, Loc.headFirst MHH)).1
+def mTok (off head : Nat) (e : Addr) : String :=
+  if e = 0 then "null" else
+  let v := e.toNat
+  if v ≥ MB ∧ v < MB + 4 * 96 ∧ (v - MB) % 96 = 0 then toString ((v - MB) / 96)
+  else if (mcastIn e (BitVec.ofNat 64 off)).toNat = head ∧ head ≠ 0 then "head" else "?"
+def mmacStr (i : Nat) : String :=
+  let obj : Addr := BitVec.ofNat 64 (mObj i)
+  let A : Addr := 24#64
+  let B : Addr := 56#64
+  let S : Addr := 72#64
+  let H : Addr := 80#64
+  let one := fun (t : String) => t ++ ":1"
+  let (s', popped) := slistPopFirst mFixS MHS
+  " ".intercalate [
+    one (mTok 24 MHA (mcastOut (mcastIn obj A) A)),
+    one (mTok 56 MHB (mcastOutOrNull (mcastIn obj B) B)),
+    one (mTok 56 MHB (mcastOutOrNull 0 B)),
+    one (mTok 24 MHA (mcastOut (mcastIn obj A) A)),
+    one (mTok 56 MHB (mcastOut (mcastInOrNull obj B) B)),
+    one (if mcastInOrNull 0 B = 0 then "null" else "?"),
+    one (mTok 24 MHA (mcastOut (mcastIn obj A) A)),
+    one (mTok 24 MHA (dlistFirstEntry mFixD (BitVec.ofNat 64 MHA) A)),
+    one (mTok 24 MHA (dlistLastEntry mFixD (BitVec.ofNat 64 MHA) A)),
+    one (mTok 24 MHA (dlistNextEntry mFixD obj A)),
+    one (mTok 56 MHB (dlistPrevEntry mFixD obj B)),
+    one (mTok 72 MHS (mcastOut (mcastIn obj S) S)),
+    one (mTok 72 MHS (slistFirstEntry mFixS (BitVec.ofNat 64 MHS) S)),
+    one (mTok 72 MHS (slistNextEntry mFixS obj S)),
+    one (mTok 80 0 (mcastOut (mcastIn obj H) H)),
+    one (mTok 80 0 (hlistFirstEntry mFixH MHH H)),
+    (if i < 3 then one (mTok 80 0 (hlistNextEntry mFixH obj H)) else "-"),
+    s!"{INT_BYTES}:0", s!"{DLIST_HEAD_BYTES}:0", toString (memberOffsetof B).toNat,
+    one (mTok 72 MHS (mcastOutOrNull (ptrOf popped) S)),
+    mTok 72 MHS (slistFirstEntry s' (BitVec.ofNat 64 MHS) S)]
+def idsL (l : List Nat) : String := if l.isEmpty then "-" else ",".intercalate (l.map toString)
+def premainStr : String :=
+  let h0 : Heap := ⟨fun x => x, fun x => x⟩
+  let hd := 100
+  let h := [hd, 0, 1, 2].foldl dlistInit h0          -- DLIST_HEAD_INIT: the state dlist_init produces
+  let h := dlistMove (dlistAddPrev (dlistAddNext (dlistAddPrev h 0 hd) 1 hd) 2 hd) 2 hd
+  let c := idsL (dlistToList h 10 hd) ++ "/" ++ toString (dlistSizeL h 10 hd)
+  let s := slistAdd (slistAdd ([hd, 0, 1].foldl slistInit ⟨fun x => x⟩) 0 hd) 1 hd
+  let sl := idsL (slistToList s 10 hd) ++ "/" ++ toString (slistSizeL s 10 hd)
+  let x := [hd, 0, 1, 2].foldl nodeCtor h0
+  let x := listPopFront (nodeMovePrevThan (nodeMoveNextThan (nodeMovePrevThan x 0 hd) 1 hd) 2 hd) hd
+  let xs := idsL (dlistToList x 10 hd) ++ "/" ++ toString (circularSize x 10 hd - 1)
+  s!"c={c} s={sl} x={xs} now c={c} s={sl} x={xs}"
+/-- comparators of the sorted-insertion ops (keys = ids): 0 `<`, 1 a weak order with ties (`id % 3`),
+2 the wrap-around comparator `(int8_t)(ka - kb) < 0` on `k = 37 id mod 256` -/
+def cmpMode (mode : Nat) (x y : Nat) : Bool :=
+  if mode = 1 then decide (x % 3 < y % 3)
+  else if mode = 2 then wrapLess8 (BitVec.ofNat 8 (x * 37)) (BitVec.ofNat 8 (y * 37))
+  else decide (x < y)
 -- the iterator reached from begin() by k increments
 def iterAt (h : Heap) (l : Nat) : Nat → Nat
     | 0 => iterBegin h l
@@ -131,6 +223,8 @@ def step4 (st : DState) (op l a b : String) : DState × String :=
       | "xerase_if" =>
         let r := listEraseIf (fun x => decide (x % a = b)) st.h FUEL l
         res { st with h := r.1 } (ids r.2)
+      | "cmove_sorted_k" =>   -- entry l, head a, comparator b
+        res { st with h := dlistMoveSorted st.h (cmpMode b) (max FUEL (st.n + 2)) l a, removed := st.removed.erase l } "ok"
       | "xmove_next_obj" => res { st with h := listMoveNext st.h (xObj a) XOFF (mcastIn (xObj b) XOFF).toNat } "ok"
       | "xmove_prev_obj" => res { st with h := listMovePrev st.h (xObj a) XOFF (mcastIn (xObj b) XOFF).toNat } "ok"
       | "xmove_next_it" => res { st with h := listMoveNextIt st.h (xObj a) XOFF (BitVec.ofNat 64 (iterAt st.h l b)) } "ok"
@@ -149,8 +243,8 @@ def stepT3 (st : DState) (op m a : String) : DState × String :=
       match nat? a with
       | some a => (match m with
         | "h" => res { st with h := dlistInit st.h (tHeadOf st a) } "ok"
-        | "a" => res { st with h := dlistInit st.h (tNode a 0) } "ok"
-        | "b" => res { st with h := dlistInit st.h (tNode a 1) } "ok"
+        | "a" => res { st with h := dlistInit st.h (tNode a 0), removed := st.removed.erase (tNode a 0) } "ok"
+        | "b" => res { st with h := dlistInit st.h (tNode a 1), removed := st.removed.erase (tNode a 1) } "ok"
         | _ => bad)
       | none => bad
     else
@@ -161,7 +255,7 @@ def stepT3 (st : DState) (op m a : String) : DState × String :=
       let ob : Addr := BitVec.ofNat 64 (tObj a)
       match op with
       | "tdel" => res { st with h := dlistDelInit st.h (tNode a m) } "ok"
-      | "tdelp" => res { st with h := dlistDel st.h (tNode a m) } "ok"
+      | "tdelp" => res { st with h := dlistDel st.h (tNode a m), removed := tNode a m :: st.removed } "ok"
       | "tentries" => res st (ids ((dlistForEachEntry st.h FUEL hd off).map tKey))
       | "tentries_rev" => res st (ids ((dlistForEachEntryReverse st.h FUEL hd off).map tKey))
       | "tfirst" => res st (tKeyOrEnd st (tOff m) (dlistFirstEntry st.h hd off))
@@ -176,13 +270,13 @@ def stepT4 (st : DState) (op m a b : String) : DState × String :=
     match mem? m, nat? a, nat? b with
     | some m, some a, some b =>
       match op with
-      | "tadd" => res { st with h := dlistAddNext st.h (tNode a m) (tHeadOf st b) } "ok"
-      | "tadd_tail" => res { st with h := dlistAddPrev st.h (tNode a m) (tHeadOf st b) } "ok"
+      | "tadd" => res { st with h := dlistAddNext st.h (tNode a m) (tHeadOf st b), removed := st.removed.erase (tNode a m) } "ok"
+      | "tadd_tail" => res { st with h := dlistAddPrev st.h (tNode a m) (tHeadOf st b), removed := st.removed.erase (tNode a m) } "ok"
       | "tmove" => res { st with h := dlistMove st.h (tNode a m) (tHeadOf st b) } "ok"
       | "tmove_tail" => res { st with h := dlistMoveTail st.h (tNode a m) (tHeadOf st b) } "ok"
       | "tmove_to" => res { st with h := dlistMove st.h (tNode a m) (tNode b m) } "ok"
       | "tmove_tail_to" => res { st with h := dlistMoveTail st.h (tNode a m) (tNode b m) } "ok"
-      | "tsorted" => res { st with h := dlistMoveSorted st.h (fun x y => decide (x < y)) FUEL (tNode a m) (tHeadOf st b) } "ok"
+      | "tsorted" => res { st with h := dlistMoveSorted st.h (fun x y => decide (x < y)) FUEL (tNode a m) (tHeadOf st b), removed := st.removed.erase (tNode a m) } "ok"
       | _ => bad
     | _, _, _ => bad
 -- tsafe <m> <head> <p> <q> <mode> <tgt> | tsafe raw <m> <head> <p> <q>
@@ -207,7 +301,8 @@ def stepTsafe (st : DState) (ws : List String) : DState × String :=
              else dlistMoveTail h (mcastIn e off).toNat (tHeadOf st tgt))
           else h
         let r := dlistForEachEntrySafe body st.h FUEL (BitVec.ofNat 64 (tHeadOf st hd)) off
-        res { st with h := r.1 } (ids (r.2.map tKey))
+        let gone := if mode = 1 then (r.2.filter fun e => tKey e % p = q).map fun e => (mcastIn e off).toNat else []
+        res { st with h := r.1, removed := gone ++ st.removed } (ids (r.2.map tKey))
       | _, _, _, _, _, _ => bad
     | _ => bad
 
@@ -233,6 +328,14 @@ def stepLine (st : DState) (line : String) : DState × String :=
       let h := (List.range (n - 1)).foldl (fun h i => dlistAddPrev h (i + 1) 0) h
       res { kind := "c", n := n, h := h } "ok"
     | none => bad
+  | ["reset", "R", n] => match nat? n with
+    | some n => res { kind := "c", n := n, h := ringHeap n } "ok"
+    | none => bad
+  | ["widths"] => res st widthsStr
+  | ["premain"] => res st premainStr
+  | ["mmac", _, i] => match nat? i with
+    | some i => res st (mmacStr i)
+    | none => bad
   | ["reset", "t", n, k] => match nat? n, nat? k with
     | some n, some k => res { kind := "t", n := n + k, nheads := k } "ok"
     | _, _ => bad
@@ -250,11 +353,11 @@ def stepLine (st : DState) (line : String) : DState × String :=
     | none => bad
     | some a =>
       match op with
-      | "cinit" => res { st with h := dlistInit st.h a } "ok"
-      | "cdel" => res { st with h := dlistDel st.h a } "ok"
+      | "cinit" => res { st with h := dlistInit st.h a, removed := st.removed.erase a } "ok"
+      | "cdel" => res { st with h := dlistDel st.h a, removed := a :: st.removed } "ok"
       | "cdel_init" => res { st with h := dlistDelInit st.h a } "ok"
-      | "csize" => res st (toString (dlistSizeC st.h FUEL a))
-      | "csize_rev" => res st (toString (dlistSizeReversedC st.h FUEL a))
+      | "csize" => res st (toString (dlistSizeL st.h (max FUEL (st.n + 2)) a))
+      | "csize_rev" => res st (toString (dlistSizeReversedL st.h (max FUEL (st.n + 2)) a))
       | "cempty" => res st (if dlistEmpty st.h a then "1" else "0")
       | "ccorrect" => res st (if dlistIsCorrect st.h a then "1" else "0")
       | "ccorrect_strict" => res st (if dlistIsCorrect st.h a then "1" else "0")
@@ -279,7 +382,9 @@ def stepLine (st : DState) (line : String) : DState × String :=
       | "xwalk" => res st (ids (dlistToList st.h FUEL a) ++ "/" ++ ids (dlistToListRev st.h FUEL a))
       | "xfront" => res st (toString (xId (listFront st.h (BitVec.ofNat 64 a) XOFF)))
       | "xback" => res st (toString (xId (listBack st.h (BitVec.ofNat 64 a) XOFF)))
-      | "sinit" => res { st with s := slistInit st.s a } "ok"
+      | "sinit" =>
+        -- the elements of a re-initialised head are in no list afterwards
+        res { st with s := slistInit st.s a, sfree := ((if st.sfree.contains a then [] else slistToList st.s (st.n + 1) a) ++ st.sfree).erase a } "ok"
       | "smacros" =>
         -- every container_of-style macro applied to the (once evaluated) node / object pointer of item a
         let node : Addr := BitVec.ofNat 64 (HADDR a)
@@ -296,8 +401,8 @@ def stepLine (st : DState) (line : String) : DState × String :=
         res { st with hh := r.1 } (keyOfEntry (mcastOutOrNull (ptrOf (r.2.map HADDR)) XOFF))
       | "spop" =>
         let (s', r) := slistPopFirst st.s a
-        res { st with s := s' } (match r with | some v => toString v | none => "null")
-      | "ssize" => res st (toString (slistSizeC st.s FUEL a))
+        res { st with s := s', sfree := r.toList ++ st.sfree } (match r with | some v => toString v | none => "null")
+      | "ssize" => res st (toString (slistSizeL st.s FUEL a))
       | "sempty" => res st (if slistEmpty st.s a then "1" else "0")
       | "slist" => res st (ids (slistToList st.s FUEL a))
       | "hhead_init" => res { st with hh := hlistHeadInit st.hh a } "ok"
